@@ -333,6 +333,11 @@ U(id="C19.xz", props=["C19", "C02", "C18", "C03"], file="xz/writer.rs", features
   thorough_harnesses=["c19_xz_new_filters_and_block_size"],
   functions=[("src/xz/writer.rs", "new", "XZWriter"), ("src/xz/writer.rs", "write_block_header"), ("src/xz/writer.rs", "encode_lzma2_dict_size")],
   contract="forall u32 filter properties: refused, or the block header carries exactly what the reader decodes (delta distance 1..=256, BCJ start offset aligned, LE); >3 pre-filters refused; block size >= dictionary; dictionary byte = smallest representable size >= dict_size")
+U(id="C08.cut", props=["C08", "C18", "C06"], file="lzma2_reader_mt.rs", harnesses=["c08_mt_cut_step"], tier="thorough", timeout=1500, assumptions=SCHED,
+  contract_stubs=["spawn_worker_thread -> ghost counter (thread::spawn is outside Kani)", "send_work_unit -> records the unit, starts a fresh one", "alloc::fmt::format -> empty String"],
+  kind="bounded", bound="one cutter step; chunk data size 1..4 bytes (size arithmetic unrestricted); pending unit empty or 2 bytes",
+  functions=[("src/lzma2_reader_mt.rs", "read_and_dispatch_chunk")],
+  contract="a work unit is cut (0x00 appended, sent) exactly before a dictionary-resetting chunk (control >= 0xE0 or 0x01) and at the end marker; chunk bytes appended unchanged with the sizes their header declares; reserved control bytes rejected")
 
 # ---------------------------------------------------------------------------------------- quick-tier budget
 # Harnesses kept in the quick tier per unit; every other harness of the unit runs in the thorough tier only.
